@@ -51,6 +51,11 @@ CLAIMED = {
          "Every history of <= 3 (quick) / <= 4 (thorough) writer calls from an empty and a parsed-with-comments file is enumerated by TLC; the model's invariants (unique attribute names, forest, untouched items keep tokens) are checked on the spec, and every enumerated history is executed against hclwrite: no panic, serialised bytes parse, re-parsed structure equals the model, read accessors (through the root and through retained handles) equal the model, untouched original items keep their comment/token lines.",
          "Bounded: names {a,b}, types {t,u}, 3 label lists, 4 expression payloads, nesting <= 2; AppendBlock only with detached blocks; token preservation is checked line-wise modulo indentation.",
          "DESIGN.md §4 C12"),
+ "C18": ("spec/DynBlock.tla + spec/HclDec.tla (MC_C18)",
+         "TLC enumerates bodies mixing static and dynamic blocks with the specification's written-out static body (DynBlock!WrittenOut) and decoded value; the real dynblock.Expand + hcldec.Decode is compared with decoding the written-out body, with the model value, under unknown for_each, and in the scope pruned to the reported variables",
+         "Bodies of <= 2 items (quick) / up to 3 (thorough) from ~90 dynamic-block templates (all iterable kinds incl. empty, null, non-iterable; default/custom iterators; labels from the iterator; nested static and dynamic content with outer-iterator references and shadowing) x 8 specs (list, tuple, set, single block, map, object, nested tuple-in-tuple, min/max).",
+         "Attribute values in generated blocks are primitives; marked for_each is covered by C06's extension, not here.",
+         "DESIGN.md §4 C18"),
  "C19": ("spec/HclExpr.tla (MC_E1 generator)",
          "TLC-enumerated (error-rich) ASTs evaluated by the real evaluator in canary scopes; diagnostics and their text renderings searched for canaries",
          "Every MC_E1 AST evaluated with secrets (high-entropy strings/numbers/map keys) only inside marked values, marks at top level and nested; no summary, detail or text-writer rendering may contain a canary.",
@@ -97,7 +102,7 @@ def main():
         },
         "engines": [
             {"name": "HclWriteTree", "path": "spec/HclWriteTree.tla", "serves_properties": ["C12"], "kind_free_text": "TLA+ edit-history machine of the hclwrite tree; TLC state dump streamed to a Go replayer"},
-            {"name": "HclDec", "path": "spec/HclDec.tla", "serves_properties": ["C03", "C08"], "kind_free_text": "TLA+ model of hcldec spec kinds: ImpliedType, implied schema, Decode, JSON expressibility; generator MC_Dec; replayers harness/dec, c03, c08"},
+            {"name": "HclDec", "path": "spec/HclDec.tla", "serves_properties": ["C03", "C08", "C18"], "kind_free_text": "TLA+ model of hcldec spec kinds: ImpliedType, implied schema, Decode, JSON expressibility; generator MC_Dec; replayers harness/dec, c03, c08"},
             {"name": "HclStruct", "path": "spec/HclStruct.tla", "serves_properties": ["C02"], "kind_free_text": "TLA+ layout machine writing native-syntax files with their abstract tree; TLC dump replayed into hclsyntax.ParseConfig"},
             {"name": "HclBody", "path": "spec/HclBody.tla", "serves_properties": ["C04"], "kind_free_text": "TLA+ machine of schema-driven body processing (PartialContent/Content with hidden sets); TLC dump replayed on four hcl.Body implementations"},
             {"name": "E1 HclValues+HclExpr+MC_E1", "path": "spec/HclExpr.tla", "serves_properties": ["C01", "C05", "C06", "C07", "C19", "C20"], "kind_free_text": "TLA+ denotational semantics of the expression/template language with a production-per-action AST generator; TLC dump streamed to Go replayers (harness/e1, c01, c05, c06, c07, c19)"},
